@@ -1,5 +1,5 @@
 SPECIFICATION TraceSpec
-INVARIANTS FwBound CqBound RetryBound
+INVARIANTS FwBound CqBound RetryBound CacheBound
 CONSTRAINT HWM
 POSTCONDITION Post
 CHECK_DEADLOCK FALSE
